@@ -166,6 +166,18 @@ def explore(tier="quick", prop="C06"):
                     fail(name, "value depends on call history (re-used argument buffer): fresh arrays %r, buffer as first "
                                "argument %r, as second %r" % (got, g3, g4), x, y)
                     break
+                # scratch memory re-used between calls: a pair that SHARES some coordinates, evaluated before and after
+                # unrelated evaluations of the same length that leave large values behind
+                ys = [a if t % 2 == 0 else b for t, (a, b) in enumerate(zip(x, y))]
+                ysa = np.asarray(ys, dtype=float)
+                h1 = float(fn(xa, ysa))
+                for _ in range(3):
+                    fn(np.asarray(x, dtype=float) * 3.0 + 1.0, np.asarray(y, dtype=float) * 7.0 + 2.0)
+                h2 = float(fn(xa, ysa))
+                if not (h1 == h2 or (math.isnan(h1) and math.isnan(h2))):
+                    fail(name, "value depends on call history (pair sharing coordinates): %r, after other evaluations %r"
+                         % (h1, h2), x, ys)
+                    break
                 xi = np.asarray([int(v) for v in x]) if kind == "lattice" else None
                 if xi is not None:
                     try:
@@ -219,6 +231,15 @@ def explore(tier="quick", prop="C06"):
                 tol = 1e-7 if name == "chord" else 1e-9
                 if math.isnan(z) or abs(z) > tol * max(1.0, max(abs(v) for v in x)):
                     fail(name, "self-distance %r is not zero" % z, x, x)
+                    break
+                # a few more identical pairs per case (rounding of a self-distance depends on the vector)
+                for _ in range(6):
+                    w = gen_vec(rng, rng.randint(2, 6), dom, "generic")
+                    zw = float(fn(np.asarray(w, dtype=float), np.asarray(w, dtype=float)))
+                    if math.isnan(zw) or math.isinf(zw) or abs(zw) > tol * max(1.0, max(abs(v) for v in w)):
+                        fail(name, "self-distance %r is not zero / not finite" % zw, w, w)
+                        break
+                if failure:
                     break
             if "tri" in ax:
                 z = gen_vec(rng, n, dom, kind) if near_step is None else [v + dlt for v, dlt in zip(x, near_step)]
